@@ -68,7 +68,7 @@ def do_case(ctx, inp):
                 return
     for sigma in all_assignments(lv):
         if ref_eval(t, sigma) == 1:
-            real = o.evaluate(sigma)
+            real = o.evaluate(as_mapping(ctx.rng, dict(sigma)))
             if real.constant != 1:
                 ctx.fail("evaluate-disagrees-with-truth-function", {"sigma": sigma})
                 return
